@@ -1,0 +1,6 @@
+//go:build !verif
+
+package workerpool
+
+// verifYield is a scheduling point for the verification harness; without the build tag "verif" it does nothing.
+func verifYield(string) {}
